@@ -502,6 +502,18 @@ Definition dctx_dec_stream_gen (stale : bool) (d : dctx) (f : Z) : dctx * result
   let '(x, used) := dd_stream_header stale d fmt_ok (frame_fid f) in
   (dctx_set_stage (dctx_set_dict d x) S_init, if fmt_ok && dkind_matches used f then Ok else Err E_other).
 
+(* since fix 2f289ec the single-pass shortcut of ZSTD_decompressStream (the whole frame in one call, which is what `ddec` does)
+   treats a single-use dictionary like the other two frame-start doors (b15fdb6, b87b37f): the call starts from it and marks it
+   used only when it succeeds *)
+Definition dctx_dec_stream_once (stale : bool) (d : dctx) (f : Z) : dctx * result :=
+  let pre := dd_fx_pre stale d (frame_fid f) in
+  let ok := dkind_matches (dd_kind pre) f in
+  (dctx_set_stage (dctx_set_dict d (if ok then mkDD 0 (dd_kind pre) (dd_set pre) (dd_last pre) else pre)) S_init,
+   if ok then Ok else Err E_other).
+Definition dctx_dec_stream_disp (stale : bool) (d : dctx) (f : Z) : dctx * result :=
+  if Z.eqb (d_format d) 0 && Z.eqb (dd_uses (dd_fx_pre stale d (frame_fid f))) 1
+  then dctx_dec_stream_once stale d f else dctx_dec_stream_gen stale d f.
+
 (* one frame of a one-shot call (ZSTD_decompressMultiFrame): [start] is the DDict the call was entered with.
    [stale_tables]: before fix 70fa663 the frame was decoded with the tables of [start] although ZSTD_decodeFrameHeader had
    switched dctx->ddict to the dictionary named by the frame (finding F30). *)
@@ -528,6 +540,16 @@ Definition dctx_dec_oneshot_gen (stale_tables : bool) (d : dctx) (fs : list Z) :
   if negb (Z.eqb (d_format d) 0) then (dctx_set_stage (dctx_set_dict d (dd_with_last x0 0)) S_init, Err E_other)
   else let '(x1, ok) := dd_oneshot_frames stale_tables (Z.eqb (d_refMultipleDDicts d) 1) x0 start fs in
        (dctx_set_stage (dctx_set_dict d x1) S_init, if ok then Ok else Err E_other).
+(* since fix b87b37f ZSTD_decompressDCtx does not call ZSTD_getDDict for a single-use dictionary (ZSTD_DCtx_refPrefix): the call
+   starts from it and marks it used only when it succeeds; a call that fails leaves the prefix pending *)
+Definition dctx_dec_oneshot_once (stale_tables : bool) (d : dctx) (fs : list Z) : dctx * result :=
+  let x0 := d_dict d in
+  if negb (Z.eqb (d_format d) 0) then (dctx_set_stage (dctx_set_dict d (dd_with_last x0 0)) S_init, Err E_other)
+  else let '(x1, ok) := dd_oneshot_frames stale_tables (Z.eqb (d_refMultipleDDicts d) 1) x0 (dd_kind x0) fs in
+       (dctx_set_stage (dctx_set_dict d (if ok then mkDD 0 (dd_kind x1) (dd_set x1) (dd_last x1) else x1)) S_init,
+        if ok then Ok else Err E_other).
+Definition dctx_dec_oneshot_disp (stale_tables : bool) (d : dctx) (fs : list Z) : dctx * result :=
+  if Z.eqb (dd_uses (d_dict d)) 1 then dctx_dec_oneshot_once stale_tables d fs else dctx_dec_oneshot_gen stale_tables d fs.
 (* `ddecu k f`: ZSTD_decompress_usingDDict with an explicit DDict k (0 = NULL); ZSTD_getDDict is not consulted *)
 Definition dctx_dec_using_gen (stale_tables : bool) (d : dctx) (k f : Z) : dctx * result :=
   if negb (Z.eqb (d_format d) 0) then (dctx_set_stage (dctx_set_dict d (dd_with_last (d_dict d) 0)) S_init, Err E_other)
@@ -560,8 +582,8 @@ Definition dctx_end : dctx -> dctx := dctx_end_gen false.
 Definition dctx_frame : dctx -> dctx := dctx_frame_gen false.
 Definition dctx_bad : dctx -> dctx := dctx_bad_gen false.
 Definition dctx_fx : dctx -> Z -> dctx := dctx_fx_gen false.
-Definition dctx_dec_stream : dctx -> Z -> dctx * result := dctx_dec_stream_gen false.
-Definition dctx_dec_oneshot : dctx -> list Z -> dctx * result := dctx_dec_oneshot_gen false.
+Definition dctx_dec_stream : dctx -> Z -> dctx * result := dctx_dec_stream_disp false.
+Definition dctx_dec_oneshot : dctx -> list Z -> dctx * result := dctx_dec_oneshot_disp false.
 Definition dctx_dec_using : dctx -> Z -> Z -> dctx * result := dctx_dec_using_gen false.
 
 (* ZSTD_DCtx_refDDict: k = 0 is NULL; with ZSTD_d_refMultipleDDicts the DDict is also stored in the (lazily allocated) set *)
